@@ -130,6 +130,9 @@ func main() {
 	}
 	for _, lv := range lvs {
 		checkDescriptors(lv)
+		for _, md := range lv.msgs {
+			checkStructTags(lv, md)
+		}
 	}
 	// explicit cases first (pinned findings, replays)
 	for _, cs := range in.Cases {
